@@ -37,7 +37,7 @@ package config
 // ---- C19: namespace configuration reloads. The OPL watcher keeps one reader per watched
 // file and re-parses every file on every event.
 //@ func (*oplConfigWatcher).parseFiles
-//@   props C19 C13
+//@   props C19
 //@   noframe
 //@   requires nw != nil && nw.logger != nil
 //@   callsite (*memoryNamespaceManager).set requires[C19] keep-last-good: len(errs) == 0
@@ -48,7 +48,7 @@ package config
 // the visible namespaces are swapped as a whole: a new map that holds every namespace handed
 // in, under its name, and nothing else
 //@ func (*memoryNamespaceManager).set
-//@   props C19 C13
+//@   props C19
 //@   requires s != nil && (forall i in 0..len(nn) :: nn[i] != nil)
 //@   modifies s.byName
 //@   ensures[C19] whole-new-map: s.byName != nil && fresh(s.byName)
@@ -59,12 +59,12 @@ package config
 //@   loop 1 invariant forall k string :: has(s.byName, k) ==> (exists i in 0..$n :: nn[i].Name == k && s.byName[k] != nil)
 
 //@ func (*oplConfigWatcher).handleChange
-//@   props C19 C13
+//@   props C19
 //@   noframe
 //@   requires nw != nil && nw.logger != nil && e != nil && nw.files.byPath != nil
 
 //@ func (*oplConfigWatcher).handleRemove
-//@   props C19 C13
+//@   props C19
 //@   noframe
 //@   requires nw != nil && nw.logger != nil && e != nil
 
@@ -73,12 +73,12 @@ package config
 // branch is keyed by e.Source(), a value no contract expression can name (unexported field of
 // a dependency's type) - not claimed (DESIGN.md C19)
 //@ func (*NamespaceWatcher).handleChange
-//@   props C19 C13
+//@   props C19
 //@   noframe
 //@   requires nw != nil && nw.logger != nil && e != nil && nw.namespaces != nil
 
 //@ func (*NamespaceWatcher).readNamespaceFile
-//@   props C19 C13
+//@   props C19
 //@   noframe
 //@   requires nw != nil && nw.logger != nil
 //@   ensures[C19] result-describes-the-file: result != nil ==> fresh(result) && result.Name == source && (result.namespace == nil || fresh(result.namespace))
